@@ -193,7 +193,7 @@ pub fn run(ctx: &Ctx) -> i32 {
     rep.absorb(r);
     // enumerated f32 sweep: a residue class in quick, everything in thorough
     let n32 = Fmt::F32.inf_bits();
-    let (stride, off) = match ctx.tier {
+    let (stride, off) = match ctx.sweep_tier() {
         Tier::Quick => (1024u64, ctx.seed % 1024),
         Tier::Thorough => (1, 0),
     };
